@@ -16,6 +16,13 @@ import (
 
 var allProps = []string{"C01", "C06", "C08", "C09", "C10"}
 
+func safeDigest(qf qframe.QFrame) (d string) {
+	if p, v := hlib.Recover(func() { d = digest(qf) }); p {
+		return fmt.Sprintf("PANIC while observing: %v", v)
+	}
+	return d
+}
+
 // runOp executes op on qf under recover, checks that the receiver is unchanged, dumps the result.
 func runOp(s *hlib.Suite, qf qframe.QFrame, desc map[string]interface{}, op func() qframe.QFrame) (qframe.VerifFrame, bool) {
 	before := digest(qf)
@@ -35,6 +42,26 @@ func runOp(s *hlib.Suite, qf qframe.QFrame, desc map[string]interface{}, op func
 		}
 	} else if out.Len() != -1 {
 		s.Fail(id, "a frame with Err set reports Len() != -1", desc, "")
+	}
+	// siblings: further operations on the SAME receiver (each adding or replacing a column, or deriving a new
+	// index) must leave the result obtained above exactly as it was observed
+	if qf.Err == nil && out.Err == nil && len(qf.ColumnNames()) > 0 {
+		first := qf.ColumnNames()[0]
+		dOut := safeDigest(out)
+		hlib.Recover(func() {
+			_ = qf.Copy("sib1", first)
+			_ = qf.Apply(qframe.Instruction{Fn: 7, DstCol: "sib2"})
+			_ = qf.WithRowNums("sib3")
+			_ = qf.Eval("sib4", qframe.Val(types.ColumnName(first)))
+			_ = qf.Sort(qframe.Order{Column: first, Reverse: true})
+			_ = qf.Slice(0, qf.Len()/2).Copy("sib5", first)
+		})
+		if safeDigest(out) != dOut {
+			s.Fail(id, fmt.Sprintf("the result of %v changed when further operations were applied to the same receiver", desc["op"]), desc, "")
+		}
+		if safeDigest(qf) != before {
+			s.Fail(id, fmt.Sprintf("the receiver of %v changed when further operations were applied to it", desc["op"]), desc, "")
+		}
 	}
 	return od, true
 }
@@ -62,7 +89,7 @@ func pickNames(r *hlib.Rng, cols []genCol, malformed bool) []string {
 
 func projCase(r *hlib.Rng, s *hlib.Suite) {
 	qf, cols := genFrame(r, nil)
-	qf, hist := derive(r, qf, cols, s)
+	qf, cols, hist := deriveCols(r, qf, cols, s)
 	malformed := r.Chance(1, 4)
 	in := qframe.VerifDump(qf)
 	nontrivial := qf.Len() > 0 && len(hist) > 0
@@ -577,7 +604,7 @@ func physCells(c qframe.VerifColumn, kind string) []interface{} {
 
 func applyCase(r *hlib.Rng, s *hlib.Suite) {
 	qf, cols := genFrame(r, nil)
-	qf, hist := derive(r, qf, cols, s)
+	qf, cols, hist := deriveCols(r, qf, cols, s)
 	malformed := r.Chance(1, 4)
 	in := qframe.VerifDump(qf)
 	avail := append([]genCol{}, cols...)
@@ -642,11 +669,19 @@ func applyCase(r *hlib.Rng, s *hlib.Suite) {
 // ---------------------------------------------------------------- Equals
 
 func equalsCase(r *hlib.Rng, s *hlib.Suite) {
-	qf, cols := genFrame(r, nil)
-	qf, hist := derive(r, qf, cols, s)
+	variant := r.Intn(7)
+	var need []string
+	if variant == 6 {
+		need = []string{"float"}
+	}
+	qf, cols := genFrame(r, need)
+	qf, cols, hist := deriveCols(r, qf, cols, s)
 	var other qframe.QFrame
 	how := ""
-	switch r.Intn(6) {
+	switch variant {
+	case 6: // the same cells with every NaN given another payload/sign and every zero the other sign: still Equal
+		other = rebuildNaNTwin(r, qf, cols)
+		how = "rebuilt with other NaN payloads and zero signs"
 	case 0: // rebuilt from the observed values: must be Equal although the physical layout differs
 		other = rebuild(qf, cols, false)
 		how = "rebuilt with New from the views"
@@ -682,6 +717,9 @@ func equalsCase(r *hlib.Rng, s *hlib.Suite) {
 	}
 	if how == "rebuilt with New from the views" && !eq {
 		s.Fail(id, "a frame rebuilt with New from the observed values is not Equal", desc, "")
+	}
+	if variant == 6 && !eq {
+		s.Fail(id, "frames whose cells differ only in NaN payload / sign of zero are not Equal", desc, "")
 	}
 	if self, _ := qf.Equals(qf); !self {
 		s.Fail(id, "Equals is not reflexive", desc, "")
@@ -734,6 +772,48 @@ func rebuild(qf qframe.QFrame, cols []genCol, perturb bool) qframe.QFrame {
 	return qframe.New(data, newqf.ColumnOrder(names...), newqf.Enums(enums))
 }
 
+var nanPayloads = []uint64{0x7FF8000000000001, 0x7FF8000000000002, 0xFFF8000000000000, 0xFFF8000000000001, 0x7FF0000000000001}
+
+func rebuildNaNTwin(r *hlib.Rng, qf qframe.QFrame, cols []genCol) qframe.QFrame {
+	data := map[string]types.DataSlice{}
+	enums := map[string][]string{}
+	names := qf.ColumnNames()
+	tm := qf.ColumnTypeMap()
+	for _, name := range names {
+		switch tm[name] {
+		case types.Int:
+			data[name] = qf.MustIntView(name).Slice()
+		case types.Float:
+			d := qf.MustFloatView(name).Slice()
+			for i, f := range d {
+				if math.IsNaN(f) {
+					b := nanPayloads[r.Intn(len(nanPayloads))]
+					for b == math.Float64bits(f) {
+						b = nanPayloads[r.Intn(len(nanPayloads))]
+					}
+					d[i] = math.Float64frombits(b)
+				} else if f == 0 {
+					d[i] = math.Copysign(0, -math.Copysign(1, f))
+				}
+			}
+			data[name] = d
+		case types.Bool:
+			data[name] = qf.MustBoolView(name).Slice()
+		case types.String:
+			data[name] = qf.MustStringView(name).Slice()
+		case types.Enum:
+			data[name] = qf.MustEnumView(name).Slice()
+			enums[name] = nil
+			for _, c := range cols {
+				if c.name == name {
+					enums[name] = c.enumV
+				}
+			}
+		}
+	}
+	return qframe.New(data, newqf.ColumnOrder(names...), newqf.Enums(enums))
+}
+
 func rebuildTwin(qf qframe.QFrame, cols []genCol) qframe.QFrame {
 	data := map[string]types.DataSlice{}
 	enums := map[string][]string{}
@@ -765,6 +845,21 @@ func newCase(r *hlib.Rng, s *hlib.Suite) {
 	k := r.Intn(5)
 	lens := []int{0, 0, 1, 3, 3, 3, 2}
 	base := lens[r.Intn(len(lens))]
+	// a malformed case carries exactly ONE fault class, so that no other error can mask it:
+	// 0 illegal name, 1 one column of another length, 2 negative constant count, 3 unsupported data type,
+	// 4 enum declaration for a missing column, 5 bad ColumnOrder, 6 several faults at once (the old mix)
+	fault := -1
+	if malformed {
+		fault = r.Intn(7)
+		if fault == 1 && k < 2 {
+			k = 2 + r.Intn(3)
+		}
+	}
+	is := func(f int, num, den int) bool { return fault == f || (fault == 6 && r.Chance(num, den)) }
+	deviant := -1
+	if fault == 1 {
+		deviant = r.Intn(k)
+	}
 	data := map[string]types.DataSlice{}
 	coqData := []string{}
 	names := []string{}
@@ -773,19 +868,29 @@ func newCase(r *hlib.Rng, s *hlib.Suite) {
 	descCols := []string{}
 	for i := 0; i < k; i++ {
 		name := namePool[perm[i]]
-		if malformed && r.Chance(1, 8) {
+		if (fault == 0 && i == 0) || (fault == 6 && r.Chance(1, 8)) {
 			name = badNames[r.Intn(len(badNames))]
 		}
 		if _, dup := data[name]; dup {
 			continue
 		}
 		n := base
-		if malformed && r.Chance(1, 4) {
+		if i == deviant {
+			for n == base {
+				n = lens[r.Intn(len(lens))]
+			}
+		} else if fault == 6 && r.Chance(1, 4) {
 			n = lens[r.Intn(len(lens))]
 		}
 		var d interface{}
 		var c string
 		kind := r.Intn(11)
+		if fault == 2 && i == 0 {
+			kind = []int{6, 9}[r.Intn(2)]
+		}
+		if fault == 3 && i == 0 {
+			kind = 10
+		}
 		switch kind {
 		case 0:
 			g := genColumn(r, name, "int", n, false)
@@ -817,7 +922,7 @@ func newCase(r *hlib.Rng, s *hlib.Suite) {
 			d, c = l, "DStrings "+hlib.List(it)
 		case 6:
 			cnt := n
-			if malformed && r.Chance(1, 4) {
+			if is(2, 1, 4) {
 				cnt = -1 - r.Intn(3)
 			}
 			v := intPool[r.Intn(len(intPool))]
@@ -834,12 +939,12 @@ func newCase(r *hlib.Rng, s *hlib.Suite) {
 				v = sp(strPool[r.Intn(len(strPool))])
 			}
 			cnt := n
-			if malformed && r.Chance(1, 6) {
+			if is(2, 1, 6) {
 				cnt = -2
 			}
 			d, c = qframe.ConstString{Val: v, Count: cnt}, fmt.Sprintf("DConstStr %s %s", hlib.OptStr(v), hlib.Z(int64(cnt)))
 		default:
-			if malformed {
+			if fault == 3 || fault == 6 {
 				d, c = []int32{1, 2, 3}, "DOther"
 			} else {
 				g := genColumn(r, name, "int", n, false)
@@ -852,7 +957,7 @@ func newCase(r *hlib.Rng, s *hlib.Suite) {
 		descCols = append(descCols, fmt.Sprintf("%s:%T", name, d))
 		// enum declaration
 		isStr := kind == 3 || kind == 4 || kind == 5 || kind == 9
-		if (isStr && r.Chance(1, 2)) || (malformed && r.Chance(1, 10)) {
+		if (isStr && r.Chance(1, 2)) || (fault == 6 && r.Chance(1, 10)) {
 			switch r.Intn(3) {
 			case 0:
 				enums[name] = nil
@@ -863,19 +968,23 @@ func newCase(r *hlib.Rng, s *hlib.Suite) {
 			}
 		}
 	}
-	if malformed && r.Chance(1, 6) {
+	if is(4, 1, 6) {
 		enums["ghost"] = []string{"x"}
 	}
 	// column order
 	var order []string
-	switch r.Intn(4) {
+	oc := r.Intn(4)
+	if fault == 5 {
+		oc = 1
+	}
+	switch oc {
 	case 0:
 	default:
 		p := r.Perm(len(names))
 		for _, i := range p {
 			order = append(order, names[i])
 		}
-		if malformed && len(order) > 0 {
+		if (fault == 5 || fault == 6) && len(order) > 0 {
 			switch r.Intn(4) {
 			case 0:
 				order = order[1:]
